@@ -7,6 +7,7 @@ type nodeDocument struct {
 
 func (doc *nodeDocument) Execute(ctx *ExecutionContext, writer TemplateWriter) *Error {
 	for _, n := range doc.Nodes {
+		verifGate(ctx, "doc", 0)
 		err := n.Execute(ctx, writer)
 		if err != nil {
 			return err
